@@ -112,6 +112,8 @@ def evo_program(r, pid, nops, unit=Fraction(1), kinds=None):
     lws.append(gen.mk_trough("trough", V, TC, 10, 5000, [r.choice([2500, 5000, 10]) for _ in range(TC)]))
     h = gen.header(pid, "evo", unit, r.choice([950, 200, 50]), lws, flags={"comp": False, "norm": False})
     sess = gen.Session(h)
+    if sess.broken:
+        return sess.prog
     try:
         for i in range(nops):
             if r.random() < 0.2:
@@ -120,7 +122,7 @@ def evo_program(r, pid, nops, unit=Fraction(1), kinds=None):
                 op, pres = evo_op(r, sess, kind=(r.choice(kinds) if kinds else None))
             sess.do(op, pres)
     finally:
-        sess.tw.close()
+        sess.close()
     return sess.prog
 
 
